@@ -2,6 +2,7 @@ package gov
 
 import (
 	"fmt"
+	"os"
 	"go/types"
 	"sort"
 	"strings"
@@ -278,6 +279,15 @@ func (h *Heap) Merge(sc *Script, conds []Term, ins []*State) *State {
 		}
 	}
 	newHeap := map[string]Term{}
+	if os.Getenv("GOV_DEBUG_MERGE") != "" {
+		for _, n := range sortedBoolKeys(names) {
+			for i, in := range ins {
+				if _, ok := in.heap[n]; !ok && strings.Contains(n, "Connection.state") {
+					fmt.Fprintf(os.Stderr, "MERGE[%s]: input %d/%d (epoch %d, sameEpoch=%v) lacks %s\n", DebugWhere, i, len(ins), in.epoch, sameEpoch, n)
+				}
+			}
+		}
+	}
 	for _, n := range sortedBoolKeys(names) {
 		vals := make([]Term, len(ins))
 		for i, in := range ins {
@@ -436,3 +446,5 @@ func sortKey(s Sort) string {
 	r := strings.NewReplacer("(", "", ")", "", " ", "_")
 	return r.Replace(string(s))
 }
+
+var DebugWhere string
